@@ -1,6 +1,7 @@
 package otto
 
 import (
+	"errors"
 	"reflect"
 	"strconv"
 )
@@ -36,13 +37,24 @@ func (o *goSliceObject) setLength(value Value) {
 		panic(err)
 	}
 
+	if want < 0 {
+		// reflect would panic; a negative length is a RangeError as for arrays.
+		panic(conversionPanic(errors.New("invalid slice length")))
+	}
+
 	wantInt := int(want)
 	switch {
 	case wantInt == o.value.Len():
 		// No change needed.
 	case wantInt < o.value.Cap():
 		// Fits in current capacity.
-		o.value.SetLen(wantInt)
+		if o.value.CanSet() {
+			o.value.SetLen(wantInt)
+		} else {
+			// Not addressable (e.g. a field of a struct passed by value): SetLen
+			// would panic; reslice the bridged copy instead.
+			o.value = o.value.Slice(0, wantInt)
+		}
 	default:
 		// Needs expanding.
 		newSlice := reflect.MakeSlice(o.value.Type(), wantInt, wantInt)
